@@ -13,7 +13,13 @@ from . import schema
 SER = "onnx_ir.serde"
 TRUSTED = ["deserialize_value_info_proto: deserialize_type_proto_for_shape / _for_type return None or a newly built object and may "
            "raise (assumed contract of the two callees; they are pure constructors over the proto); metadata/doc-string helpers do not "
-           "touch Value._shape/_type (lenient frame)"]
+           "touch Value._shape/_type (lenient frame)",
+           "serialize_graph_into targets: graph_proto.initializer is the sequence of slots handed out by add(); serialize_tensor_into(slot, "
+           "from_=t) fills the slot from t with t's current name (assumed contract of the leaf serializer, whose field coverage is C02's "
+           "other obligation) and may raise; from_.initializers.values() is the sequence of the dictionary's values, all non-null; the "
+           "other serializers called in the function do not touch the initializer field or tensor names (lenient frame); "
+           "_maybe_add_quantization_annotation, serialize_value_into, _should_create_value_info_for_value, serialize_node_into are "
+           "opaque (arbitrary result, may raise)"]
 
 
 def add_value_info_target(eng):
@@ -128,3 +134,98 @@ def add_graph_annotation_target(eng):
         # the recorded headers, contracts/loop_headers.json, so that a renamed loop variable does not detach the contract)
         loops={2: LoopSpec(modifies=None, body_end=body_end("initializer")),
                5: LoopSpec(modifies=None, body_end=body_end("graph output"))}))
+
+
+def add_graph_initializer_target(eng):
+    """serialize_graph_into, initializer loop, as a functional contract (C02 `No ... tensor payload or storage field ... is lost`,
+    C03 `initializer and constant bytes`, `aligning each initializer tensor's own name with the name of its value`):
+
+      the TensorProtos added to graph_proto.initializer are, IN ORDER, one per initializer value that has a const_value - none for
+      the others -, each filled by serialize_tensor_into from exactly that value's tensor, at a moment when the tensor's name equals
+      the value's name.
+
+    graph_proto.initializer is modelled as the sequence of slots handed out by add(); serialize_tensor_into(slot, from_=t) records
+    (t, t.name) in the slot.  The correspondence is carried through the loop by two ghost witnesses: g_idx (for every slot the
+    index of its initializer, strictly increasing) and g_pos (for every visited initializer its slot, or -1 when it has no tensor).
+    from_.initializers.values() is the sequence of the dictionary's values (assumed non-null Value objects)."""
+    import z3
+    from pyvc.core import Exc
+    from pyvc.sem_stmt import LoopSpec
+    from pyvc.types import BOOL, NULL, TSeq, VFunc, VNone, VOpaque, VSeq, fresh_name
+    schema.core_ir(eng)
+    V = TRef("Value")
+    eng.add_class(ClassDecl("InitSlot", fields={"src": TRef("TensorLike"), "sname": TOpt(STR), "filled": BOOL}))
+    eng.add_class(ClassDecl("InitField", fields={"slots": TSeq(TRef("InitSlot"))}))
+    eng.add_class(ClassDecl("GraphProtoI", fields={"name": STR, "doc_string": STR, "initializer": TRef("InitField")}))
+    eng.add_class(ClassDecl("SerInits", fields={"g_seq": TSeq(V)}))
+    eng.add_class(ClassDecl("GraphLikeI", fields={"initializers": TRef("SerInits")}))
+
+    G = "from_.initializers.g_seq"
+    S = "graph_proto.initializer.slots"
+
+    def m_values(e, p, args, kwargs, node):
+        return [(p, e.read_field(p, args[0], "g_seq"))]
+
+    def no_slot(e, q, s):
+        # end of an iteration that filled no slot: the initializer has none
+        e.run_ghost(q, "g_pos = ite(len(g_pos) == g_k, g_pos + IntSeq(-1), g_pos)")
+
+    def m_add(e, p, args, kwargs, node):
+        slot = e.new_object(p, "InitSlot")
+        e.write_field(p, slot, "src", TRef("TensorLike").null() if hasattr(TRef("TensorLike"), "null") else e.read_field(p, slot, "src"))
+        e.write_field(p, slot, "filled", __import__("pyvc.types", fromlist=["VBool"]).VBool(False))
+        s = e.read_field(p, args[0], "slots")
+        e.write_field(p, args[0], "slots", VSeq(s.len + 1, [z3.Store(a, s.len, c) for a, c in zip(s.arrs, slot.comps())], s.elem))
+        return [(p, slot)]
+    eng.method_models = dict(getattr(eng, "method_models", {}) or {})
+    eng.method_models[("SerInits", "values")] = FnDecl("SerInits.values", "builtin", impl=m_values)
+    eng.method_models[("InitField", "add")] = FnDecl("InitField.add", "builtin", impl=m_add)
+
+    def ser_tensor(e, p, args, kwargs, node):
+        from pyvc.types import VBool, VRef
+        slot = args[0]
+        t = kwargs.get("from_", args[1] if len(args) > 1 else None)
+        if not (isinstance(slot, VRef) and slot.cls == "InitSlot"):
+            return [(p, VOpaque("serialize_tensor_into")), (p.copy(), Exc("AnyException", f"L{node.lineno}:serialize_tensor_into"))]
+        e.oblige(p, t.z != NULL, "call-pre", f"L{node.lineno}:serialize_tensor_into is given a tensor")
+        q = p.copy()
+        e.write_field(p, slot, "src", t)
+        e.write_field(p, slot, "sname", e.read_field(p, t, "name"))
+        e.write_field(p, slot, "filled", VBool(True))
+        # ghost witnesses: the slot just filled belongs to the initializer of this iteration
+        e.run_ghost(p, f"g_idx = g_idx + IntSeq(g_k)\ng_pos = g_pos + IntSeq(len({S}) - 1)")
+        return [(p, VNone()), (q, Exc("AnyException", f"L{node.lineno}:serialize_tensor_into"))]
+
+    def known(name):
+        def call(e, p, args, kwargs, node):
+            return [(p, VOpaque("result of " + name)), (p.copy(), Exc("AnyException", f"L{node.lineno}:{name}"))]
+        return VFunc("py", call, name)
+
+    def setup(e, p, env):
+        e.lenient = True
+        e.global_overrides = dict(e.global_overrides)
+        e.global_overrides[(SER, "serialize_tensor_into")] = VFunc("py", ser_tensor, "serialize_tensor_into")
+        for name in ("serialize_value_into", "_should_create_value_info_for_value", "serialize_node_into", "_serialize_metadata_props_into",
+                     "_maybe_add_quantization_annotation"):
+            e.global_overrides[(SER, name)] = known(name)
+    eng.spec_fn('''
+def ser_filtered(vals, slots, idx, pos, n):
+    return (len(idx) == len(slots) and len(pos) == n and
+            forall(lambda m=int: implies(0 <= m and m < len(slots), 0 <= idx[m] and idx[m] < n and nonnull(slots[m]) and allocated(slots[m]) and slots[m].filled and
+                                         slots[m].src is vals[idx[m]]._const_value and slots[m].sname == vals[idx[m]]._name and pos[idx[m]] == m)) and
+            forall(lambda m=int, k2=int: implies(0 <= m and m < k2 and k2 < len(slots), idx[m] < idx[k2] and slots[m] is not slots[k2])) and
+            forall(lambda j=int: implies(0 <= j and j < n and vals[j]._const_value is None, pos[j] == -1)) and
+            forall(lambda j=int: implies(0 <= j and j < n and vals[j]._const_value is not None,
+                                         0 <= pos[j] and pos[j] < len(slots) and idx[pos[j]] == j)))
+''')
+    wf = ["nonnull(graph_proto) and nonnull(from_) and nonnull(from_.initializers) and nonnull(graph_proto.initializer)",
+          f"forall(lambda j=int: implies(0 <= j and j < len({G}), nonnull({G}[j])))"]
+    eng.add_target(Target("serialize_graph_into[initializers]", mod=SER, qual="serialize_graph_into", setup=setup,
+        params=dict(graph_proto=TRef("GraphProtoI"), from_=TRef("GraphLikeI"), model_ir_version=TOpt(INT_)),
+        requires=wf + [f"len({S}) == 0"],
+        ghost_init=f"g_idx = IntSeq()\ng_pos = IntSeq()\ng_vals = {G}",
+        loops={2: LoopSpec(invariant=wf + [f"seq_eq(g_vals, it) and seq_eq({G}, g_vals)",
+                                           f"ser_filtered(g_vals, {S}, g_idx, g_pos, k)"],
+                           modifies=["InitField.slots", "InitSlot.src", "InitSlot.sname", "InitSlot.filled", "TensorLike.name", "$alloc"],
+                           body_end=no_slot)},
+        ensures=[f"ser_filtered(g_vals, {S}, g_idx, g_pos, len(g_vals))"], raises_default=[], modifies=None, assert_mode="raise"))
